@@ -25,3 +25,28 @@ Theorem C02_json_int_float_refuted : forall c j,
   db_same (jput c j (VInt 1)) (jput c j (VFloat (FFin 1 0))) = false.
 Proof. exact json_int_float_refuted. Qed.
 Print Assumptions C02_json_int_float_refuted.
+
+(* ---- key-ordered iteration (Cache.iterkeys) never aliases or drops a key: for every table size (any number
+        of 100-row pages) it lists every stored (key, raw) pair exactly once, strictly ascending (descending for
+        reverse=True) in the database key order.  NULL keys (float('nan') binds as NULL) are excluded: the
+        full statement is refuted in C03_iterkeys_null_key_refuted (finding C02-F2 / C03-F1). ---- *)
+From Coq Require Import Permutation.
+From DC Require Import SqlBase Gen_Sql Cache SinvFacts IterkeysFacts.
+
+Theorem C02_iterkeys_each_key_once : forall s reverse,
+  Winv s -> forallb (fun r => key_nonnull (rkey r)) (rows s) = true ->
+  exists l, op_iterkeys s reverse = (s, RKeys l) /\
+            Permutation l (keys_of (rows s)) /\ NoDup l /\ pairs_sorted reverse l /\
+            length l = length (rows s).
+Proof. exact iterkeys_result. Qed.
+Print Assumptions C02_iterkeys_each_key_once.
+
+(* the order of the listing: sql_cmp on the keys (NULL < numeric < TEXT < BLOB), then raw; a strict total
+   order on pairs whose key is not REAL NaN *)
+Theorem C02_key_order_strict_total : forall p q r,
+  klt p p = false /\
+  (klt p q = true -> klt q p = false) /\
+  (kwf p = true -> kwf q = true -> kwf r = true -> klt p q = true -> klt q r = true -> klt p r = true) /\
+  (klt p q = false -> klt q p = false -> sql_cmp (fst p) (fst q) = Eq /\ snd p = snd q).
+Proof. intros p q r. exact (conj (klt_irrefl p) (conj (klt_asym p q) (conj (klt_trans p q r) (klt_total p q)))). Qed.
+Print Assumptions C02_key_order_strict_total.
